@@ -1539,6 +1539,9 @@ package resolve
 //@   ensures {exactly.one.completed.entry} count(completedEntry) == old(count(completedEntry)) + 1
 //@   ensures {exactly.one.hasNext} count(hasNext) == old(count(hasNext)) + 1
 //@   ensures {announces.exactly.the.returned.children} g_pend == result0 && result0 == g_live && count(pendingList) == old(count(pendingList)) + ite(len(result0) > 0, 1, 0)
+//@   ghost var g_inc bool = false
+//@   at call Resolvable.printBytes: ghost g_inc = g_inc || arr(arg1) == arr(literalIncremental)
+//@   ensures {a.fragment.that.delivers.nothing.announces.no.nested.fragment} !g_inc ==> len(result0) == 0 && count(pendingList) == old(count(pendingList))
 //@   modifies *, count(*)
 
 //@ func Resolvable.ResolveDeferError
